@@ -168,7 +168,39 @@ class ByteInterp(VecInterp):
                 x_is_zero = x.known_zero()
                 table = {"Gt": (not x_is_zero) and nz, "Lt": x_is_zero and nz, "Ge": (not x_is_zero) or not nz, "Le": x_is_zero or not nz}
                 return 1 if table[base] else 0
-            raise Undecidable("comparison of symbolic words")
+            # interval reasoning: a symbolic byte ranges over 0..255 (1..255 when known non-zero)
+            def bounds(w):
+                lo = hi = 0
+                for e in w.s:
+                    if isinstance(e, int):
+                        lo, hi = (lo << 8) | e, (hi << 8) | e
+                    else:
+                        lo, hi = (lo << 8) | (1 if e[2] else 0), (hi << 8) | 255
+                return lo, hi
+            shared = [i for i in range(NB) if isinstance(x.s[i], tuple) and isinstance(y.s[i], tuple)]
+            if shared:
+                raise Undecidable("comparison of two symbolic words")
+            (xl, xh), (yl, yh) = bounds(x), bounds(y)
+            if base in ("Lt", "Ge"):
+                if xh < yl:
+                    r = True
+                elif xl >= yh:
+                    r = False
+                else:
+                    raise Undecidable("comparison not determined by the byte class (%r vs %r)" % (x, y))
+                return 1 if r == (base == "Lt") else 0
+            if base in ("Le", "Gt"):
+                if xh <= yl:
+                    r = True
+                elif xl > yh:
+                    r = False
+                else:
+                    raise Undecidable("comparison not determined by the byte class (%r vs %r)" % (x, y))
+                return 1 if r == (base == "Le") else 0
+            if base in ("Eq", "Ne"):
+                if xh < yl or yh < xl:
+                    return 1 if base == "Ne" else 0
+                raise Undecidable("equality not determined by the byte class (%r vs %r)" % (x, y))
         raise Undecidable("%s on a symbolic word" % op)
 
     def rvalue(self, rv):
